@@ -346,6 +346,7 @@ let rec judge_case (u : uni) (case : sx) (obs : sx list) : verdict =
             if got <> want then fail v "corr-size" "sequential reference sizes differ from the model";
             if bs <> "0" then fail v "prop-size" (Printf.sprintf "%s concurrent EncodedSize calls returned a wrong size" bs);
             if bb <> "0" then fail v "corr-bytes" (Printf.sprintf "%s concurrent EncodeObject calls wrote wrong bytes" bb);
+            if bs <> "0" || bb <> "0" then fail v "prop-repeat" "encoding the same unmodified value again gave another result (concurrent callers of the same type)";
             if er <> "0" then fail v "prop-fit-rejected" (Printf.sprintf "%s concurrent EncodeObject calls failed on a sufficient buffer" er);
             if pn <> "0" then fail v "panic" (Printf.sprintf "%s concurrent calls panicked" pn)
         | _ -> fail v "harness" "unparsable observation")
@@ -640,14 +641,14 @@ let rec judge_case (u : uni) (case : sx) (obs : sx list) : verdict =
                   List.iter (function
                     | L [A p; A off; A ln; A _] ->
                         let off = int_of_string off and ln = int_of_string ln in
-                        (match List.assoc_opt p !content with
-                         | Some sbytes ->
-                             let want = List.map int_of_n sbytes in
-                             let here = if off >= 0 && off + ln <= Array.length inp then Array.to_list (Array.sub inp off ln) else [] in
-                             if here <> want then fail v "prop-nocopy-view" (Printf.sprintf "%s: the input at offset %d does not hold the value" p off)
-                             else if off < 4 || (inp.(off-4) lsl 24) lor (inp.(off-3) lsl 16) lor (inp.(off-2) lsl 8) lor inp.(off-1) <> ln then
-                               fail v "prop-nocopy-view" (Printf.sprintf "%s: offset %d is not the payload of a %d-byte string in the message" p off ln)
-                         | None -> ())
+                        (* several values can share a path (pointer map keys that print alike): any of them may be the one *)
+                        let cands = List.filter_map (fun (q, sb) -> if q = p then Some (List.map int_of_n sb) else None) !content in
+                        let here = if off >= 0 && off + ln <= Array.length inp then Array.to_list (Array.sub inp off ln) else [] in
+                        if cands <> [] then begin
+                          if not (List.mem here cands) then fail v "prop-nocopy-view" (Printf.sprintf "%s: the input at offset %d does not hold the value" p off)
+                          else if off < 4 || (inp.(off-4) lsl 24) lor (inp.(off-3) lsl 16) lor (inp.(off-2) lsl 8) lor inp.(off-1) <> ln then
+                            fail v "prop-nocopy-view" (Printf.sprintf "%s: offset %d is not the payload of a %d-byte string in the message" p off ln)
+                        end
                     | _ -> ()) inb;
                   if flipout <> "flip-outside:same" then fail v "prop-input-alias" "changing input bytes outside the nocopy values changed the decoded value";
                   List.iter (function L [A p; A r] -> if r <> "changed" then fail v "prop-nocopy-view" (p ^ " does not follow the buffer") | _ -> ()) flips
